@@ -175,6 +175,20 @@ def run(ctx):
             ok = ok and same
         ctx.ob("R3.activation-protocol", "poll.clear-flag-before-poll", ok, core_poll.loc(),
                "check_activated(meta) dominates poll_erased of the same slot and the poll happens only when it returned true")
+        if len(ca) == 1 and len(pe) == 1:
+            # ... and a consumed activation IS followed by the poll: check_activated swaps the flag to 0, so a path that leaves
+            # its `true` arm without polling (a sweep budget, an early break) loses the wake for good - nobody sets the flag again
+            cbb = ca[0][0]
+            sw = core_poll.blocks[core_poll.blocks[cbb].term["target"]] if isinstance(core_poll.blocks[cbb].term.get("target"), int) else None
+            true_t = []
+            if sw is not None and sw.term["k"] == "switch":
+                true_t = [tg for v, tg in sw.term["arms"] if v != 0] or ([sw.term["otherwise"]] if all(v == 0 for v, _ in sw.term["arms"]) else [])
+            okp = False
+            if true_t:
+                exits_ = core_poll.exits(("return",)) + [cbb]
+                okp, _off = core_poll.must_pass(true_t, [pe[0][0]], exits_)
+            ctx.ob("R3.activation-protocol", "poll.consumed-activation-is-polled", okp, core_poll.loc(ca[0][1]["span"]),
+                   f"every path from check_activated() == true reaches poll_erased before the next slot / the return: {okp}")
         # sub-context built from the slot's own waker
         cf = [(bb, t) for bb, t in core_poll.calls() if callee_key(t["callee"]).endswith("Context::from_waker")]
         ok = len(cf) == 1 and bool(Slice(core_poll, through_calls=True).run(cf[0][1]["args"][0])["locals"] & sh["locals"]) if pe and ca else False
